@@ -1718,7 +1718,13 @@ def run_c11(ctx) -> Corr:
                 "- real `async with gateway:` statements in a task - that end in every way such a statement can end (body ends, "
                 "library error from the listen loop or an exception of the application leaves the block, task cancelled): ids "
                 "stay distinct over all runs as long as no context statement reported a failure of its own (final save) and "
-                "nobody else touched the file")
+                "nobody else put another registry (a loadable file, an empty file, no file) there. Plus persistence files "
+                "DAMAGED IN PLACE between or during the runs in every way Persistence.load tells apart (cut short at every "
+                "kind of offset, undecodable bytes, no JSON, nested too deeply, wrong shape, one invalid node record among valid "
+                "ones in each position, path unreadable: a directory / a symlink loop) followed by a restart or a re-entry "
+                "and id requests: a context statement that reports the read error hands out nothing; one that starts "
+                "all the same must not hand out an id the library had saved in that file nor the id of a well-formed "
+                "record the file still holds")
     rng = lib.rng_for(ctx.seed, "c11")
     hists = [h for _, h in corpus_histories("C11")]
     base = [0, 1, 2, 253, 254, 255]
